@@ -35,6 +35,7 @@ const (
 	kLoopClose
 	kCond
 	kElse
+	kExact // a call whose full text (with arguments) is a dictionary entry
 )
 
 // the dictionary of call targets / fields / conditions (ids are mirrored in Conc/Skel.lean;
@@ -106,9 +107,14 @@ var dict = []string{
 	"!changedRows && !updated", // 63 condition
 	"changedRows",             // 64 condition
 	"AddUint64",               // 65
+	"commit.ChunkAt(index)",     // 66 exact call text (kind 14)
+	"lock.RLock(uint(chunk))",   // 67
+	"lock.RUnlock(uint(chunk))", // 68
+	"lock.Lock(uint(chunk))",    // 69
+	"lock.Unlock(uint(chunk))",  // 70
 }
 
-const dictVersion = 3
+const dictVersion = 4
 
 type fnSpec struct {
 	file string
@@ -211,6 +217,9 @@ func (w *walker) expr(e ast.Expr, depth int) {
 			w.expr(a, depth)
 		}
 		w.emit(depth, kCall, callName(w.fset, x.Fun, w.aliases))
+		if id := intern(exprText(w.fset, x)); id != 0 {
+			w.emit(depth, kExact, id)
+		}
 	case *ast.FuncLit:
 		w.emit(depth, kClosureOpen, 0)
 		w.block(x.Body.List, depth+1)
